@@ -129,11 +129,15 @@ def make_dataset(seed, idx):
     c = rng.choice(np.where(y != y[a])[0])
     trips.append((a, b, c))
   trips = np.array(trips)
+  # a copy on the finer grid 1/1024 (jitter below 1/32, so rows stay distinct): for SCML_Supervised, whose basis construction
+  # compares distances from k-means centres (means: not grid numbers) to the points -- on a coarse grid such distances are
+  # often exactly tied, and a tie is then broken by the rounding of the centre, which is not translation invariant
+  Xfine = X + rng.randint(-31, 32, size=X.shape) / 1024.0
   Qr = rng.randint(-6 * q, 6 * q + 1, size=(10, 2, d)) / float(q)
   Qr[:3, 0] = X[rng.choice(n, 3, replace=False)]
   Qr[rng.randint(10), 1] = X[rng.randint(n)]
   Qr = Qr[np.any(Qr[:, 0] != Qr[:, 1], axis=1)]
-  return dict(d=d, k=k, n=n, X=X, y=y, yreg=yreg, chunks=chunks, pairs=pairs, ypairs=ypairs, quads=quads, trips=trips, queries=Qr,
+  return dict(d=d, k=k, n=n, X=X, Xfine=Xfine, y=y, yreg=yreg, chunks=chunks, pairs=pairs, ypairs=ypairs, quads=quads, trips=trips, queries=Qr,
               seed=seed, idx=idx)
 
 
@@ -217,7 +221,7 @@ def signed_permutation(rng, d):
 
 
 def relations(D, rng, tier):
-  """(relation name, learner, variant, builder) -- builder() -> (X', queries', fit kwargs, factor, rtol, json-able parameter)"""
+  """(relation name, learner, variant, builder) -- builder(X) -> (X', queries', fit kwargs, factor, rtol, json-able parameter)"""
   d, k = D['d'], D['k']
   q = 2.0 ** k
   quick = tier == 'quick'
@@ -231,11 +235,11 @@ def relations(D, rng, tier):
   for name in PUBLIC:
     t = translation()
     rtol = tolerance('translation', name, configs(name, variant))
-    yield 'translation', name, variant, (lambda t=t, rtol=rtol: (D['X'] + t, D['queries'] + t, {}, 1.0, rtol, dict(t=t.tolist())))
+    yield 'translation', name, variant, (lambda X, t=t, rtol=rtol: (X + t, D['queries'] + t, {}, 1.0, rtol, dict(t=t.tolist())))
     if not quick:
       t2 = translation() * 4
       rtol = tolerance('translation', name, configs(name, variant + 1))
-      yield 'translation', name, variant + 1, (lambda t=t2, rtol=rtol: (D['X'] + t, D['queries'] + t, {}, 1.0, rtol, dict(t=t.tolist())))
+      yield 'translation', name, variant + 1, (lambda X, t=t2, rtol=rtol: (X + t, D['queries'] + t, {}, 1.0, rtol, dict(t=t.tolist())))
   for name in ('ITML', 'MMC', 'SDML'):
     for frac in ((0.5,) if quick else (0.5, 1.0)):
       m = len(D['pairs'])
@@ -243,18 +247,18 @@ def relations(D, rng, tier):
       P = D['pairs'].copy()
       P[sel] = P[sel][:, ::-1]
       for var in ((variant,) if quick else (variant, variant + 1)):
-        yield 'pair-swap', name, var, (lambda P=P, sel=sel: (D['X'], D['queries'], dict(pairs=P), 1.0, 1e-9, dict(swapped_pairs=sel.tolist())))
+        yield 'pair-swap', name, var, (lambda X, P=P, sel=sel: (X, D['queries'], dict(pairs=P), 1.0, 1e-9, dict(swapped_pairs=sel.tolist())))
   for frac in ((0.5,) if quick else (0.5, 1.0)):
     m = len(D['quads'])
     sel = np.sort(rng.choice(m, max(1, int(m * frac)), replace=False))
     Qd = D['quads'].copy()
     Qd[sel] = Qd[sel][:, [1, 0, 3, 2]]
     for var in ((variant,) if quick else (variant, variant + 1)):
-      yield 'pair-swap', 'LSML', var, (lambda Qd=Qd, sel=sel: (D['X'], D['queries'], dict(quads=Qd), 1.0, 1e-9, dict(swapped_quadruplets=sel.tolist())))
+      yield 'pair-swap', 'LSML', var, (lambda X, Qd=Qd, sel=sel: (X, D['queries'], dict(quads=Qd), 1.0, 1e-9, dict(swapped_quadruplets=sel.tolist())))
   for name in ('Covariance', 'RCA'):
     for _ in range(1 if quick else 3):
       order = rng.permutation(D['n'])
-      yield 'sample-order', name, variant, (lambda order=order: (D['X'], D['queries'], dict(order=order), 1.0, 1e-9, dict(order=order.tolist())))
+      yield 'sample-order', name, variant, (lambda X, order=order: (X, D['queries'], dict(order=order), 1.0, 1e-9, dict(order=order.tolist())))
   for name in ('Covariance', 'RCA', 'LFDA', 'LMNN', 'ITML', 'LSML', 'MMC'):
     for rep in range(1 if quick else 2):
       Q = signed_permutation(rng, d)
@@ -262,22 +266,23 @@ def relations(D, rng, tier):
       for var in ((variant,) if (quick or name in ('Covariance', 'RCA')) else (variant, variant + 1)):
         if name == 'LMNN' and configs(name, var)['init'] != 'identity':
           continue
-        yield 'orthogonal', name, var, (lambda Q=Q, rtol=rtol: (D['X'].dot(Q.T), D['queries'].dot(Q.T), {}, 1.0, rtol, dict(Q=Q.tolist())))
+        yield 'orthogonal', name, var, (lambda X, Q=Q, rtol=rtol: (X.dot(Q.T), D['queries'].dot(Q.T), {}, 1.0, rtol, dict(Q=Q.tolist())))
   for name in ('Covariance', 'RCA'):
     for j in ((rng.choice([-3, -1, 2, 5]),) if quick else (-4, -1, 1, 3, 10)):
       c = 2.0 ** j
-      yield 'scaling', name, variant, (lambda c=c: (D['X'] * c, D['queries'], {}, 1.0 / c, 1e-9, dict(c=c)))
+      yield 'scaling', name, variant, (lambda X, c=c: (X * c, D['queries'], {}, 1.0 / c, 1e-9, dict(c=c)))
 
 
 def check_case(ml, D, rel, name, variant, builder):
   """None (holds) / 'trivial' (not a well-formed fit) / violation dict"""
   kw = configs(name, variant)
-  X2, Q2, how, factor, rtol, param = builder()
+  Xb = D['Xfine'] if name == 'SCML_Supervised' else D['X']
+  X2, Q2, how, factor, rtol, param = builder(Xb)
   with threadpool_limits(1):        # tiny problems: BLAS / OpenMP threads only cost (and oversubscribe the fork pool)
-    base = distances(ml, name, kw, D, D['X'], D['queries'])
+    base = distances(ml, name, kw, D, Xb, D['queries'])
     other = distances(ml, name, kw, D, X2, Q2, **how)
   inp = dict(dataset=dict(generator='standins.c19.make_dataset(seed=%d, idx=%d)' % (D['seed'], D['idx']), n_features=D['d'], n_samples=D['n'],
-                          grid='1/%d' % 2 ** D['k']),
+                          grid='1/%d' % 2 ** D['k'], points="D['Xfine']" if name == 'SCML_Supervised' else "D['X']"),
              estimator=name, params={k: (v if not isinstance(v, np.ndarray) else v.tolist()) for k, v in kw.items()}, relation=rel, transformation=param)
   sig = '%s: %s(%s)' % (rel, name, ', '.join('%s=%r' % (k, kw[k]) for k in sorted(kw) if k in ('init', 'prior', 'diagonal', 'embedding_type', 'chunk_size')))
   if base[0] == 'raise' and other[0] == 'raise':
@@ -317,10 +322,13 @@ def _raw_cases(tier, seed):
   for idx in range(n_datasets(tier)):
     D = make_dataset(seed, idx)
     rng = np.random.RandomState((seed * 31 + idx * 1009 + 77) % (2 ** 31 - 1))
+    seen = {}
     for rel, name, variant, builder in relations(D, rng, tier):
       kw = configs(name, variant)
       opt = ','.join('%s=%s' % (k, kw[k]) for k in sorted(kw) if k in ('init', 'prior', 'diagonal', 'embedding_type', 'chunk_size'))
       desc = '%s %s(%s) dataset#%d d=%d grid=1/%d' % (rel, name, opt, idx, D['d'], 2 ** D['k'])
+      seen[desc] = seen.get(desc, 0) + 1
+      desc += ' transformation#%d' % seen[desc]
       yield desc, (TAGS[name],), (lambda D=D, rel=rel, name=name, variant=variant, builder=builder: check_case(ml, D, rel, name, variant, builder))
 
 
